@@ -7,3 +7,22 @@ package iterator
 
 //@ structural iterator-bigint-ops: callees iterator into math/big: none
 //@ structural iterator-apd-ops: callees iterator into github.com/cockroachdb/apd/v2: none
+
+// ---------------------------------------------------------------------------------------------
+// Type cache (C16, C07): GetIteratorForType installs a placeholder for t before generating the
+// real iterator. If generation fails (panics, e.g. for an unsupported kind) the cache entry for t
+// must be what it was before the call - a placeholder left behind makes every later use of the
+// same session wait forever. On success the type is cached.
+// Assumed about the generator: it reaches the cache only through GetIteratorForType, which never
+// changes whether an entry for t exists while t's placeholder is installed.
+//@ extern github.com/kstenerud/go-concise-encoding/iterator::(*Session).getDefaultIteratorForType
+//@   modifies smHas, alloc
+//@   ensures smHas[smKey(uint64(_this.iteratorFuncs), t)] == old(smHas[smKey(uint64(_this.iteratorFuncs), t)])
+//@   xensures smHas[smKey(uint64(_this.iteratorFuncs), t)] == old(smHas[smKey(uint64(_this.iteratorFuncs), t)])
+
+//@ func (*Session).GetIteratorForType
+//@   requires _this != nil
+//@   modifies smHas, alloc
+//@   runtime_panics
+//@   ensures smHas[smKey(uint64(_this.iteratorFuncs), t)]
+//@   xensures smHas[smKey(uint64(_this.iteratorFuncs), t)] == old(smHas[smKey(uint64(_this.iteratorFuncs), t)])
